@@ -202,6 +202,11 @@ package js
 // byte (unless it is NUL) with it
 //@ orbit tplEnd(s, p) stop s[p] == '`' || (s[p] == '$' && s[p+1] == '{') || p >= len(s)-1 next ite(s[p] == '\\', p + 1 + ite(s[p+1] != 0, 1, 0), p + 1)
 //@ func Lexer.consumeTemplateToken
+// the stack of open template substitutions: a literal that ends (with or without substitutions before it) pops the level
+// Next pushed for it, a '${' keeps it and opens a brace level
+//@   ensures[F,C06] @tpl-levels: ((result == TemplateToken || result == TemplateEndToken) ==> len(l.templateLevels) == old(len(l.templateLevels)) - 1 && l.level == old(l.level)) &&
+//@        ((result == TemplateStartToken || result == TemplateMiddleToken) ==> len(l.templateLevels) == old(len(l.templateLevels)) && (smallInt(old(l.level)) ==> l.level == old(l.level) + 1))
+//@   loop 1 invariant[F] len(l.templateLevels) == old(len(l.templateLevels)) && l.level == old(l.level)
 //@   ensures[F,C06] @tpl-end: (result == TemplateToken || result == TemplateEndToken) ==> l.r.pos == tplEnd(l.r.buf, old(l.r.pos)+1) + 1 && l.r.buf[l.r.pos-1] == '`'
 //@   ensures[F,C06] @tpl-subst: (result == TemplateStartToken || result == TemplateMiddleToken) ==> l.r.pos == tplEnd(l.r.buf, old(l.r.pos)+1) + 2 && l.r.buf[l.r.pos-2] == '$' && l.r.buf[l.r.pos-1] == '{'
 //@   ensures[F,C06] @tpl-kind: (result == TemplateEndToken || result == TemplateMiddleToken) <==> (result != ErrorToken && old(l.r.buf[l.r.pos]) == '}')
